@@ -251,11 +251,10 @@ Record WF (ext : list string) (d : design) : Prop := {
 }.
 
 (* ---------------------------------------------------------------- the fragment Model/VSem.v elaborates
-   (no memories, no negedge processes, no parameters) and the fuel `elaborate` needs: one unit per item on
+   (no negedge processes, no parameters; memories are elaborated into one net per word) and the fuel `elaborate` needs: one unit per item on
    the way down, and an instantiation chain is at most |d| deep *)
 Definition item_in_fragment (it : item) : Prop :=
   match it with
-  | IMem _ _ _ => False
   | IAlways (EvNeg _) _ => False
   | IInst _ params _ _ => params = []
   | _ => True
